@@ -1759,3 +1759,29 @@ Proof.
   - vm_compute; reflexivity.
   - vm_compute; reflexivity.
 Qed.
+
+(** the disjointness premise of [filter_then_bind_l] is necessary.  Witness 5: freshly loaded tables, a pod requesting
+    the SAME address 10.100.0.3 in two range lists.  Each list has a free address routable from node1 and node2, so
+    filter offers both; Bind needs two different addresses and fails ("no enough IP"), nothing is stored *)
+Definition wit5_pod : pod :=
+  set_req (mk_pod "ns1" "web-0" "u2" KSts "web" "") 0 (map one_ip [ip4 10 100 0 3; ip4 10 100 0 3]).
+Definition wit5 : world := simple_world (ipam_init ex_conf2) wit5_pod ex_nodes ∅ ∅.
+Lemma filter_then_bind_overlap_refuted_l :
+  ∃ w p nodes o fl w1 l ns name node o2 w2,
+    WInv w ∧ w_pods w !! (ns, name) = Some p ∧ pd_node p = [] ∧
+    filter_section w p nodes o fl = (w1, FNodes l) ∧ In node l ∧ w_lister w1 !! (ns, name) = Some p ∧
+    bind_section true true w1 ns name (pd_uid p) node o2 no_faults = (w2, BErr) ∧
+    i_alloc (w_ipam w1) = ∅.
+Proof.
+  exists wit5, wit5_pod, ex_allnodes, no_oracle, no_faults, wit5, [L "node1"; L "node2"], (L "ns1"), (L "web-0"), (L "node1"), no_oracle.
+  eexists (bind_section true true wit5 (L "ns1") (L "web-0") (L "u2") (L "node1") no_oracle no_faults).1.
+  split_and!.
+  - apply winv_simple; [apply ipam_init_inv2|apply set_req_wf, mk_pod_wf; reflexivity|done].
+  - vm_compute. reflexivity.
+  - reflexivity.
+  - vm_compute. reflexivity.
+  - left. reflexivity.
+  - vm_compute. reflexivity.
+  - apply pair_eq; [reflexivity|vm_compute; reflexivity].
+  - vm_compute. reflexivity.
+Qed.
